@@ -85,6 +85,8 @@ EXTRA_OWNERS = {
             "Module.step", "Module._step_channels", "Module._step_channels_state", "Module._step_synapse", "Network._step_synapse",
             "Network._step_synapse_state"),
     "C14": ("solve_gate_exponential", "exponential_euler", "solve_inf_gate_exponential"),
+    # the radius functions of single-point sections are made by the padded generator
+    "C16": ("_padded_radius_generating_fn",),
 }
 
 
@@ -605,6 +607,14 @@ def arg_names(repo, col, prop):
             if not isinstance(c, ast.Call) or any(isinstance(a, ast.Starred) for a in c.args):
                 continue
             g, is_method = callee_of(c, fi)
+            is_partial = False
+            if g is None and isinstance(c.func, (ast.Name, ast.Attribute)) and ast.unparse(c.func).split(".")[-1] == "partial" and c.args:
+                # partial(f, a, k=v): the same bindings as the call f(a, k=v), made now and completed later
+                c0 = ast.Call(func=c.args[0], args=list(c.args[1:]), keywords=list(c.keywords))
+                ast.copy_location(c0, c)
+                g, is_method = callee_of(c0, fi)
+                if g is not None:
+                    c, is_partial = c0, True
             if g is None:
                 continue
             a = g.node.args
@@ -621,7 +631,7 @@ def arg_names(repo, col, prop):
             for k in c.keywords:
                 if k.arg and isinstance(k.value, ast.Name):
                     bound[k.arg] = k.value.id
-            if len(bound) < 2:
+            if len(bound) < (1 if is_partial else 2):
                 continue
             n += 1
             crossed = [(p_, v_) for p_, v_ in bound.items() if v_ != p_ and v_ in allp and bound.get(v_) != v_]
